@@ -270,6 +270,38 @@ func runBinaryTo(stdoutPath, bin string, stdin []byte, env []string, deadline ti
 	}
 	var so, se bytes.Buffer
 	cmd.Stdout = &so
+	var pw *os.File
+	slowDone := make(chan bool, 1)
+	if stdoutPath == "@closed" || stdoutPath == "@slow" {
+		// standard output is a pipe: its reader has gone away already (EPIPE / SIGPIPE on the first write), or is slower than the
+		// writer (the pipe is full when the command is about to finish)
+		pr, w, err := os.Pipe()
+		if err != nil {
+			die("%v", err)
+		}
+		pw = w
+		cmd.Stdout = w
+		if stdoutPath == "@closed" {
+			pr.Close()
+			slowDone <- true
+		} else {
+			go func() {
+				time.Sleep(300 * time.Millisecond)
+				buf := make([]byte, 2048)
+				for {
+					n, err := pr.Read(buf)
+					so.Write(buf[:n])
+					if err != nil {
+						break
+					}
+					time.Sleep(50 * time.Microsecond)
+				}
+				pr.Close()
+				slowDone <- true
+			}()
+		}
+		stdoutPath = ""
+	}
 	if stdoutPath != "" {
 		f, err := os.Create(stdoutPath)
 		if err != nil {
@@ -281,6 +313,9 @@ func runBinaryTo(stdoutPath, bin string, stdin []byte, env []string, deadline ti
 	cmd.Stderr = &se
 	if err := cmd.Start(); err != nil {
 		die("start %s: %v", bin, err)
+	}
+	if pw != nil {
+		pw.Close()
 	}
 	done := make(chan error, 1)
 	go func() { done <- cmd.Wait() }()
@@ -299,6 +334,12 @@ func runBinaryTo(stdoutPath, bin string, stdin []byte, env []string, deadline ti
 		<-done
 		res.Timeout = true
 		res.Exit = -9
+	}
+	if pw != nil {
+		select {
+		case <-slowDone:
+		case <-time.After(deadline):
+		}
 	}
 	res.Stdout = so.String()
 	res.Stderr = se.String()
